@@ -51,6 +51,7 @@ type Case struct {
 	ID     string `json:"id"`
 	Mode   string `json:"mode"` // parse validate
 	Fe     string `json:"fe"`   // map json form query env
+	Pre    int    `json:"pre"`  // 1: the Parse destination's pointers are pre-allocated (pointees hold sentinels)
 	Schema *Node  `json:"schema"`
 	Input  *Input `json:"input"`
 }
